@@ -84,7 +84,7 @@ package sarama
 //@   returns n, err
 //@   requires pd.remaining() >= 0
 //@   ensures[state] 0 <= pd.remaining() && pd.remaining() <= old(pd.remaining())
-//@   ensures[len] err == nil ==> 0 <= n && n <= pd.remaining() && n <= 131070
+//@   ensures[len] err == nil ==> -1 <= n && n <= pd.remaining() && n <= 131070
 //@   ensures[adv] err == nil ==> pd.remaining() == old(pd.remaining()) - 4
 //@   modifies pd.*
 
@@ -235,6 +235,7 @@ package sarama
 //@ func (rd *realDecoder) getInt8() props C10 C09
 //@   refines packetDecoder.getInt8
 //@   requires rd.valid()
+//@   ensures[iff] (err == nil) == (old(rd.remaining()) >= 1)
 //@   ensures[valid] rd.valid() && len(rd.raw) == old(len(rd.raw))
 //@   ensures[value] err == nil ==> v == wrap8(arr(rd.raw)[off(rd.raw) + old(rd.off)])
 //@   ensures[fail] err != nil ==> rd.off == len(rd.raw)
@@ -243,6 +244,7 @@ package sarama
 //@ func (rd *realDecoder) getInt16() props C10 C09
 //@   refines packetDecoder.getInt16
 //@   requires rd.valid()
+//@   ensures[iff] (err == nil) == (old(rd.remaining()) >= 2)
 //@   ensures[valid] rd.valid() && len(rd.raw) == old(len(rd.raw))
 //@   ensures[value] err == nil ==> v == wrap16(be16(arr(rd.raw), off(rd.raw) + old(rd.off)))
 //@   ensures[fail] err != nil ==> rd.off == len(rd.raw)
@@ -251,6 +253,7 @@ package sarama
 //@ func (rd *realDecoder) getInt32() props C10 C09
 //@   refines packetDecoder.getInt32
 //@   requires rd.valid()
+//@   ensures[iff] (err == nil) == (old(rd.remaining()) >= 4)
 //@   ensures[valid] rd.valid() && len(rd.raw) == old(len(rd.raw))
 //@   ensures[value] err == nil ==> v == wrap32(be32(arr(rd.raw), off(rd.raw) + old(rd.off)))
 //@   ensures[fail] err != nil ==> rd.off == len(rd.raw)
@@ -259,6 +262,7 @@ package sarama
 //@ func (rd *realDecoder) getInt64() props C10 C09
 //@   refines packetDecoder.getInt64
 //@   requires rd.valid()
+//@   ensures[iff] (err == nil) == (old(rd.remaining()) >= 8)
 //@   ensures[valid] rd.valid() && len(rd.raw) == old(len(rd.raw))
 //@   ensures[value] err == nil ==> v == wrap64(be64(arr(rd.raw), off(rd.raw) + old(rd.off)))
 //@   ensures[fail] err != nil ==> rd.off == len(rd.raw)
@@ -267,6 +271,8 @@ package sarama
 //@ func (rd *realDecoder) getVarint() props C10 C09
 //@   refines packetDecoder.getVarint
 //@   requires rd.valid()
+//@   ensures[iff] (err == nil) == (uv_n(arr(rd.raw), off(rd.raw) + old(rd.off), old(rd.remaining())) > 0)
+//@   ensures[value] err == nil ==> v == unzigzag(uv_value(arr(rd.raw), off(rd.raw) + old(rd.off), old(rd.remaining()))) && rd.off - old(rd.off) == uv_n(arr(rd.raw), off(rd.raw) + old(rd.off), old(rd.remaining()))
 //@   ensures[valid] rd.valid() && len(rd.raw) == old(len(rd.raw))
 //@   ensures[size] err == nil ==> sz_varint(v) <= rd.off - old(rd.off)
 //@   modifies rd.off
@@ -274,6 +280,8 @@ package sarama
 //@ func (rd *realDecoder) getUVarint() props C10 C09
 //@   refines packetDecoder.getUVarint
 //@   requires rd.valid()
+//@   ensures[iff] (err == nil) == (uv_n(arr(rd.raw), off(rd.raw) + old(rd.off), old(rd.remaining())) > 0)
+//@   ensures[value] err == nil ==> v == uv_value(arr(rd.raw), off(rd.raw) + old(rd.off), old(rd.remaining())) && rd.off - old(rd.off) == uv_n(arr(rd.raw), off(rd.raw) + old(rd.off), old(rd.remaining()))
 //@   ensures[valid] rd.valid() && len(rd.raw) == old(len(rd.raw))
 //@   ensures[size] err == nil ==> sz_uvarint(v) <= rd.off - old(rd.off)
 //@   modifies rd.off
@@ -281,6 +289,8 @@ package sarama
 //@ func (rd *realDecoder) getArrayLength() props C10 C09
 //@   refines packetDecoder.getArrayLength
 //@   requires rd.valid()
+//@   ensures[value] err == nil ==> n == wrap32(be32(arr(rd.raw), off(rd.raw) + old(rd.off)))
+//@   ensures[iff] (err == nil) == (old(rd.remaining()) >= 4 && -1 <= wrap32(be32(arr(rd.raw), off(rd.raw) + old(rd.off))) && wrap32(be32(arr(rd.raw), off(rd.raw) + old(rd.off))) <= old(rd.remaining()) - 4 && wrap32(be32(arr(rd.raw), off(rd.raw) + old(rd.off))) <= 131070)
 //@   ensures[valid] rd.valid() && len(rd.raw) == old(len(rd.raw))
 //@   ensures[fail] err != nil ==> n == -1
 //@   modifies rd.off
@@ -294,6 +304,7 @@ package sarama
 //@ func (rd *realDecoder) getBool() props C10 C09
 //@   refines packetDecoder.getBool
 //@   requires rd.valid()
+//@   ensures[iff] (err == nil) == (old(rd.remaining()) >= 1 && arr(rd.raw)[off(rd.raw) + old(rd.off)] <= 1)
 //@   ensures[valid] rd.valid() && len(rd.raw) == old(len(rd.raw))
 //@   ensures[value] err == nil ==> (v == (arr(rd.raw)[off(rd.raw) + old(rd.off)] == 1))
 //@   modifies rd.off
@@ -307,6 +318,8 @@ package sarama
 //@ func (rd *realDecoder) getRawBytes(length) props C10 C09
 //@   refines packetDecoder.getRawBytes
 //@   requires rd.valid()
+//@   ensures[iff] (err == nil) == (0 <= length && length <= old(rd.remaining()))
+//@   ensures[nonnil] err == nil ==> !isnil(b)
 //@   ensures[valid] rd.valid() && len(rd.raw) == old(len(rd.raw))
 //@   ensures[value] err == nil ==> rd.off == old(rd.off) + length && arr(b) == arr(rd.raw) && off(b) == off(rd.raw) + old(rd.off)
 //@   ensures[neg] length < 0 ==> err != nil && rd.off == old(rd.off)
@@ -315,12 +328,17 @@ package sarama
 //@ func (rd *realDecoder) getBytes() props C10 C09
 //@   refines packetDecoder.getBytes
 //@   requires rd.valid()
+//@   ensures[iff] (err == nil) == (old(rd.remaining()) >= 4 && -1 <= wrap32(be32(arr(rd.raw), off(rd.raw) + old(rd.off))) && wrap32(be32(arr(rd.raw), off(rd.raw) + old(rd.off))) <= old(rd.remaining()) - 4)
+//@   ensures[value] err == nil ==> (isnil(b) == (wrap32(be32(arr(rd.raw), off(rd.raw) + old(rd.off))) == -1)) && len(b) == ite(isnil(b), 0, wrap32(be32(arr(rd.raw), off(rd.raw) + old(rd.off)))) && rd.off == old(rd.off) + 4 + len(b)
+//@   ensures[bytes] err == nil && !isnil(b) ==> arr(b) == arr(rd.raw) && off(b) == off(rd.raw) + old(rd.off) + 4
 //@   ensures[valid] rd.valid() && len(rd.raw) == old(len(rd.raw))
 //@   modifies rd.off
 
 //@ func (rd *realDecoder) getVarintBytes() props C10 C09
 //@   refines packetDecoder.getVarintBytes
 //@   requires rd.valid()
+//@   ensures[value] err == nil && !isnil(b) ==> arr(b) == arr(rd.raw) && off(b) + len(b) == off(rd.raw) + rd.off && len(b) == unzigzag(uv_value(arr(rd.raw), off(rd.raw) + old(rd.off), old(rd.remaining())))
+//@   ensures[null] err == nil ==> (isnil(b) == (unzigzag(uv_value(arr(rd.raw), off(rd.raw) + old(rd.off), old(rd.remaining()))) == -1))
 //@   ensures[valid] rd.valid() && len(rd.raw) == old(len(rd.raw))
 //@   modifies rd.off
 
@@ -333,6 +351,8 @@ package sarama
 //@ func (rd *realDecoder) getStringLength() props C10 C09
 //@   returns n, err
 //@   requires rd.valid()
+//@   ensures[value] err == nil ==> n == wrap16(be16(arr(rd.raw), off(rd.raw) + old(rd.off)))
+//@   ensures[iff] (err == nil) == (old(rd.remaining()) >= 2 && -1 <= wrap16(be16(arr(rd.raw), off(rd.raw) + old(rd.off))) && wrap16(be16(arr(rd.raw), off(rd.raw) + old(rd.off))) <= old(rd.remaining()) - 2)
 //@   ensures[valid] rd.valid() && len(rd.raw) == old(len(rd.raw))
 //@   ensures[len] err == nil ==> -1 <= n && n <= rd.remaining() && rd.off == old(rd.off) + 2
 //@   ensures[mono] rd.off >= old(rd.off)
@@ -341,12 +361,16 @@ package sarama
 //@ func (rd *realDecoder) getString() props C10 C09
 //@   refines packetDecoder.getString
 //@   requires rd.valid()
+//@   ensures[value] err == nil ==> len(s) == ite(wrap16(be16(arr(rd.raw), off(rd.raw) + old(rd.off))) == -1, 0, wrap16(be16(arr(rd.raw), off(rd.raw) + old(rd.off)))) && rd.off == old(rd.off) + 2 + len(s)
+//@   ensures[iff] (err == nil) == (old(rd.remaining()) >= 2 && -1 <= wrap16(be16(arr(rd.raw), off(rd.raw) + old(rd.off))) && wrap16(be16(arr(rd.raw), off(rd.raw) + old(rd.off))) <= old(rd.remaining()) - 2)
 //@   ensures[valid] rd.valid() && len(rd.raw) == old(len(rd.raw))
 //@   modifies rd.off
 
 //@ func (rd *realDecoder) getNullableString() props C10 C09
 //@   refines packetDecoder.getNullableString
 //@   requires rd.valid()
+//@   ensures[iff] (err == nil) == (old(rd.remaining()) >= 2 && -1 <= wrap16(be16(arr(rd.raw), off(rd.raw) + old(rd.off))) && wrap16(be16(arr(rd.raw), off(rd.raw) + old(rd.off))) <= old(rd.remaining()) - 2)
+//@   ensures[value] err == nil ==> ((s == nil) == (wrap16(be16(arr(rd.raw), off(rd.raw) + old(rd.off))) == -1)) && rd.off == old(rd.off) + 2 + ite(s == nil, 0, wrap16(be16(arr(rd.raw), off(rd.raw) + old(rd.off))))
 //@   ensures[valid] rd.valid() && len(rd.raw) == old(len(rd.raw))
 //@   modifies rd.off
 
@@ -387,7 +411,7 @@ package sarama
 //@   refines packetDecoder.getStringArray
 //@   requires rd.valid()
 //@   ensures[valid] rd.valid() && len(rd.raw) == old(len(rd.raw))
-//@   loop 0: invariant rd.valid() && len(rd.raw) == old(len(rd.raw)) && rd.off >= old(rd.off) && rd.off + 2*($n - $i) <= len(rd.raw)
+//@   loop 0: invariant rd.valid() && len(rd.raw) == old(len(rd.raw)) && rd.off >= old(rd.off)
 //@   modifies rd.off
 
 //@ func (rd *realDecoder) getSubset(length) props C10 C09
